@@ -70,6 +70,7 @@ type Segment struct {
 	// explicit replay: when Choices is non-nil the policy and stalls are ignored
 	Choices []int32  `json:"choices,omitempty"`
 	MapPay  []uint64 `json:"map_pay,omitempty"`
+	Aux     []uint32 `json:"aux,omitempty"` // recorded auxiliary choices (rendezvous partners, select clauses)
 	Replay  bool     `json:"replay,omitempty"`
 
 	Record    bool `json:"record,omitempty"`     // return choices / map payloads
@@ -127,6 +128,10 @@ type Result struct {
 	Preempts    int              `json:"preempts"`
 	MapRanges   int              `json:"map_ranges"`
 	ClockJumps  int              `json:"clock_jumps"`
+	Pairs       int              `json:"pairs"`     // channel rendezvous completed by releasing both parties together
+	Selects     int              `json:"selects"`   // select statements whose clause the scheduler chose
+	Fallbacks   int              `json:"fallbacks"` // goroutines let into a real operation on a channel fed from outside the model
+	Aux         []uint32         `json:"aux,omitempty"`
 	FairKicks   int              `json:"fair_kicks"`
 	SimNs       int64            `json:"sim_ns"`         // fake-clock time that passed inside the bubble
 	Dump        string           `json:"dump,omitempty"` // goroutine dump on deadlock / hang
